@@ -19,6 +19,54 @@ def fasta(rows):
     return "".join(">%s\n%s\n" % r for r in rows)
 
 
+# ---- the regular-expression subset of lean/Gv/Model/Regex.lean -----------------------------------------------------
+# literal characters, `.`, `\d`, escaped punctuation, classes with members and ranges (also negated), the greedy
+# quantifiers `*` `+` `?`, `^` in front, `$` at the end, at most one capture group (not nested, not quantified)
+RE_CLASSES = ["[-N]", "[^ACGT-]", "[N-]", "[0-9]", "[a-z]", "[A-Z]", "[ACGT]", "[^-]", "[^0-9]", "[a-zA-Z]", "[s_]", "[0-3]", "[^ACGT]", "[NRY-Z]", "[acgt]", "\\d", "."]
+RE_TEMPLATES = ["", "X", "_", "$1", "${1}", "$0", "x$1y", "${1}y", "$1$1", "$1-", "<$0>", "$$", "$", "a$", "${1", "$2", "$01", "$1_", "N", "--", "n$0", "$name", "${0}${1}"]
+# patterns that Go refuses to compile (the four ways the model recognises) and a few outside the subset (answered `unmodelled`)
+RE_BAD = ["(", "[a", "*a", "a)", "(a", "+", "?x", "[0-9", "s(", "x[^"]
+RE_OUTSIDE = ["a|b", "(a)(b)", "(a)+", "a{2}", "a*?", "(?i)s", "\\w+", "[a--]", "^*", "a$b", "((a))", "[]a]", "\\"]
+
+
+def rand_regex(rng, lits, maxatoms=4):
+    """a pattern of the subset over the literal characters `lits`"""
+    def atom():
+        k = rng.random()
+        if k < 0.55:
+            c = rng.choice(lits)
+            return ("\\" + c) if c in ".[]()*+?^$|\\" else c
+        return rng.choice(RE_CLASSES)
+
+    def item():
+        return atom() + rng.choice(["", "", "", "+", "*", "?"])
+    n = rng.randint(0 if rng.random() < 0.1 else 1, maxatoms)
+    items = [item() for _ in range(n)]
+    if rng.random() < 0.45:
+        a = rng.randint(0, n)
+        b = rng.randint(a, n)
+        items = items[:a] + ["("] + items[a:b] + [")"] + items[b:]
+    return ("^" if rng.random() < 0.3 else "") + "".join(items) + ("$" if rng.random() < 0.3 else "")
+
+
+def hexz(s):
+    return s.encode().hex() or "-"
+
+
+def regex_cases(rng, count):
+    """`regexsub`: Go's regexp against the model of the subset, on names and on sequences"""
+    for _ in range(count):
+        if rng.random() < 0.5:
+            lits = "s0123456789_ex."
+            inp = rng.choice(["s%d" % rng.randint(0, 12), "name_s%d" % rng.randint(0, 9), "Seq%04d" % rng.randint(0, 20), "x.y_s1", "", "s", "e_e_", "s10s1", "a b", "s1\ns2"])
+        else:
+            lits = "ACGTN-acgt"
+            inp = "".join(rng.choice("ACGTN-acgtRY") for _ in range(rng.randint(0, 14)))
+        k = rng.random()
+        pat = rng.choice(RE_BAD) if k < 0.06 else rng.choice(RE_OUTSIDE) if k < 0.1 else rand_regex(rng, lits)
+        yield Case("regexsub", [hexz(pat), hexz(rng.choice(RE_TEMPLATES)), hexz(inp)], True, "regexsub" + ("-bad" if k < 0.06 else "-outside" if k < 0.1 else ""))
+
+
 def cases(rng, which, count):
     for _ in range(count):
         rows = alignment(rng)
@@ -453,6 +501,44 @@ def cases(rng, which, count):
                 yield Case("cli_lib", [sb, "subset"] + pick + rv, True, "cli-subset-names")
                 idx = [str(i) for i in rng.sample(range(len(big) + 2), rng.randint(1, min(4, len(big))))]
                 yield Case("cli_lib", [sb, "subset", "--indices"] + idx + rv, True, "cli-subset-indices")
+                # `subset -e`: the arguments are regular expressions (modelled subset), a row is kept when one matches;
+                # together with `--indices` (integers are converted first); an expression that does not compile
+                pats = []
+                for _ in range(rng.randint(1, 3)):
+                    k = rng.random()
+                    pats.append(rng.choice(RE_BAD) if k < 0.05 else rng.choice(["^s[0-2]$", "x", "^x1", "1$", "[3-5]", "s1.*", "^s", "x[0-9][0-9]", "(s|x)", "^.1$", "0", "12"]) if k < 0.6
+                                else rand_regex(rng, "sx0123456789", 3))
+                pats = [q for q in pats if q and not q.startswith("-")]
+                if pats:
+                    fl = [rng.choice(["-e", "--regexp"])] + pats + rv
+                    if rng.random() < 0.15:
+                        fl.append("--indices")
+                    if rng.random() < 0.3:
+                        rng.shuffle(fl)
+                    yield Case("cli_lib", [sb, "subset"] + fl, True, "cli-subset-regexp")
+                # `subset -f <file>`: names / indices / expressions read from a file, one per line and / or comma separated
+                # (the names on the command line are then ignored); an absent file; an empty line with `--indices`
+                k = rng.random()
+                if k < 0.5:
+                    items, fl = rng.sample(names, rng.randint(1, min(4, len(names)))) + (["nope"] if rng.random() < 0.3 else []), []
+                elif k < 0.75:
+                    items, fl = [str(i) for i in rng.sample(range(len(big) + 2), rng.randint(1, min(4, len(big))))] + (["-1"] if rng.random() < 0.1 else []), ["--indices"]
+                else:
+                    items, fl = [rng.choice(["^s[0-2]$", "x", "^x1", "1$", "[3-5]", "s1.*", "^s", "0", "(", "x[0-9][0-9]"]) for _ in range(rng.randint(1, 2))], [rng.choice(["-e", "--regexp"])]
+                txt = ""
+                for j, it in enumerate(items):
+                    txt += it + (rng.choice([",", "|"]) if j + 1 < len(items) else rng.choice(["", "|", "|"]))
+                if rng.random() < 0.06:
+                    txt += "|"
+                fl = fl + rv + [rng.choice(["-f", "--name-file"]), "names.txt" if rng.random() < 0.95 else "absent.txt"]
+                if rng.random() < 0.3:
+                    rng.shuffle(fl)
+                    fl = [x for x in fl if x not in ("names.txt", "absent.txt")]
+                    i = max(fl.index(x) for x in fl if x in ("-f", "--name-file"))
+                    fl.insert(i + 1, "names.txt")
+                if rng.random() < 0.3:
+                    fl = [rng.choice(names)] + fl
+                yield Case("cli_libf", [sb, "names.txt=" + txt, "subset"] + fl, True, "cli-subset-file" + ("".join(x for x in fl if x in ("--indices",)) or ""))
             elif w == "rename":
                 odd = [("%s%s" % (rng.choice(["a b", "x(1)", "t;u", "p:q", "n,m", "[k]", "ok"]), nm), sq) for nm, sq in rows]
                 yield Case("cli_lib", [esc(fasta(odd)), "rename", "--clean-names"], True, "cli-rename-clean")
@@ -464,12 +550,54 @@ def cases(rng, which, count):
                 rev = rng.random() < 0.4
                 mp = "|".join(("%s~%s" % (b, a)) if rev else ("%s~%s" % (a, b)) for a, b in zip(keys, tg)) + "|"
                 yield Case("cli_libf", [st, "m.txt=" + mp, "rename", "-m", "m.txt"] + (["-r"] if rev else []), True, "cli-rename-map")
+                # `rename -e <regexp> -b <replacement> [-m <map file>]`: expressions of the modelled subset of Go's regexp,
+                # every template form; an expression that does not compile; `-e` without `-b`; names made equal
+                k = rng.random()
+                pat = rng.choice(RE_BAD) if k < 0.06 else rng.choice(["s", "^s", "[0-9]+$", "s([0-9]+)", "^(.)", "(s)", ".", "[0-9]", "\\d+", "^s[0-3]$"]) if k < 0.4 else rand_regex(rng, "s0123456789")
+                tm = rng.choice(RE_TEMPLATES) if rng.random() < 0.7 else rng.choice(["X", "n_$1", "${1}_x", "t$0"])
+                e = rng.choice(["-e", "--regexp"])
+                b = rng.choice(["-b", "--replace"])
+                groups = [[e, pat], [b, tm]]
+                q = rng.random()
+                if q < 0.06:
+                    groups = [[e, pat]]
+                withmap = rng.random() < 0.5
+                if withmap:
+                    groups.append([rng.choice(["-m", "--map-file"]), rng.choice(["map.txt", "m.tsv"])])
+                rng.shuffle(groups)
+                fl = [x for g in groups for x in g]
+                if not any(x.startswith("-") and x not in ("-e", "-b", "-m", "--regexp", "--replace", "--map-file") for x in fl) and "" not in fl:
+                    if withmap:
+                        yield Case("cli_libf", [st, "_", "rename"] + fl, True, "cli-rename-regexp-map")
+                    else:
+                        yield Case("cli_lib", [st, "rename"] + fl, True, "cli-rename-regexp")
             elif w == "replace":
                 o = rng.choice(["A", "AC", "-", "N", "a", "GT", "--"])
                 nw = rng.choice(["T", "GG", "-", "N", "tt", "--"])
                 if len(o) != len(nw) and rng.random() < 0.7:
                     nw = (nw * 2)[:len(o)]
                 yield Case("cli_lib", [st, "replace", "-s", o, "-n", nw], True, "cli-replace")
+                # `replace -e`: `--old` a regular expression of the modelled subset, `--new` a template; replacements that keep
+                # the length (a class for a character, `$0`, `$1` of a whole-match group) and ones that do not (refused);
+                # flags short or long, in any order; `--old` or `--new` left out (refused)
+                k = rng.random()
+                if k < 0.45:
+                    pat, tm = rng.choice([("[acgt]", "N"), ("[^ACGT-]", "N"), ("N", "-"), ("^-", "N"), ("-$", "N"), (".", "X"), ("(.)", "$1"), ("([ACGT])", "${1}"), ("[RY]", "$0"),
+                                          ("A[CG]", "NN"), ("^(..)", "$1"), ("-+", "-"), ("^-+", "N"), ("[a-z]", "$0"), ("\\.", "-"), ("A+", "A")])
+                elif k < 0.5:
+                    pat, tm = rng.choice(RE_BAD), "N"
+                else:
+                    pat, tm = rand_regex(rng, "ACGTN-acgt", 3), rng.choice(["N", "-", "$0", "$1", "NN", "", "${1}", "x$1y", "$"])
+                groups = [[rng.choice(["-e", "--regexp"])], [rng.choice(["-s", "--old"]), pat], [rng.choice(["-n", "--new"]), tm]]
+                q = rng.random()
+                if q < 0.08:
+                    groups.pop(rng.choice([1, 2]))
+                elif q < 0.2:
+                    groups.pop(0)                               # the same strings taken literally
+                rng.shuffle(groups)
+                fl = [x for g in groups for x in g]
+                if "" not in fl and not tm.startswith("-") and not pat.startswith("-"):
+                    yield Case("cli_lib", [st, "replace"] + fl, True, "cli-replace-regexp" if q >= 0.2 or q < 0.08 else "cli-replace-flags")
             elif w == "concat":
                 names = [r[0] for r in rows]
                 L2 = rng.randint(1, 8)
